@@ -47,7 +47,8 @@ def run(rep):
         sideband = rng.random() < 0.3
         refs = [[hx(REFS[i]), v] for i, v in enumerate(st) if v != "-"]
         cmds = [[o, nn, hx(REFS[r])] for o, nn, r in cs]
-        reqs.append({"fn": "push", "refs": refs, "cmds": cmds, "atomic": atomic, "sideband": sideband})
+        reqs.append({"fn": "push", "refs": refs, "cmds": cmds, "atomic": atomic, "sideband": sideband,
+                     "layout": rng.choice(["loose", "loose", "packed", "stale-packed"])})
         enc = lambda x: hx(ids[x].encode())
         objs = ",".join(enc(x) for x in ("A", "B") + (("C",) if any(c[1] == "C" for c in cs) else ()))
         mrefs = ",".join("%s=%s" % (hx(REFS[i]), enc(v)) for i, v in enumerate(st) if v != "-") or "_"
@@ -88,7 +89,7 @@ def run(rep):
             if atomic and not all(x == "ok" for x in r["status"]) and final != before:
                 rep.fail("atomic-partial", "atomic push failed but changed refs", case)
     for q, r in zip(lreqs, impl.run(lreqs)):
-        case = {"refs": q["refs"], "cmds": q["cmds"], "atomic": q["atomic"]}
+        case = {"refs": q["refs"], "cmds": q["cmds"], "atomic": q["atomic"], "layout": q.get("layout")}
         rep.case("local-send-pack", key=repr(case), nontrivial=True)
         if "status" not in r:
             rep.fail("local-push-crashed", "LocalGitClient.send_pack raised: %r" % (r,), case)
